@@ -105,7 +105,11 @@ func init() {
 		Rule:    "trees of depth <= 2 over 3 selectors x 8 operators x 4 literals x not/and/or x any/all with 4 binding modes (thinned to ~1500 in the quick tier), each rendered under 4 layouts (thorough: 76) choosing whitespace, redundant parentheses, quote style, selector spelling and in/contains; parsed back with grammar.Parse and compared with the tree (modulo Selector.Type); plus X == <quoted s> on X = s and X = s+\"x\" for 226 strings in both quote styles. distinct_nontrivial = distinct rendered texts",
 		Trusted: []string{"A-GEN", "A-ENGINE"}})
 	add(&propSpec{ID: "C07", Level: "proof", Funcs: append([]string{"bexpr.getValue", "bexpr.evaluateMatchExpression", "bexpr.evaluateCollectionExpression", "grammar.Selector.String"}, selectorActionFuncs...),
-		Extras: []string{"read:selector-type"}, Trusted: trust("A-PS", "A-ENGINE")})
+		// which text reaches which selector action is the grammar's business: the bounded
+		// spelling run is part of the check (labelled bounded, never counted as proved)
+		BatteryIsCheck: true, DistinctKey: "spellings",
+		Rule:           "every path r.k1.k2[.z] over 18 keys (identifiers, digits, zero-padded digits, non-ASCII numerals, ~ / escapes, case, unicode, : | . -) in the dotted, [\"k\"], [`k`] and JSON-pointer spelling wherever grammar.peg admits that spelling, under 7 expression templates (both sides of in, is empty, matches, inside any, under not); each spelling must be accepted and evaluate like the bracket spelling; plus quantified collections and quantifier bodies in every spelling and the path cases of C05",
+		Extras:         []string{"read:selector-type"}, Trusted: trust("A-PS", "A-ENGINE")})
 	add(&propSpec{ID: "C20", Level: "translation_validation", Extras: []string{"table:peg"}, NoBattery: true,
 		Trusted: []string{"A-GEN"}})
 	add(&propSpec{ID: "C08", Level: "proof", Funcs: []string{"bexpr.getValue", "bexpr.evaluateNotPresent", "bexpr.doMatchIsEmpty", "bexpr.doMatchEqual", "bexpr.doMatchIn", "bexpr.doMatchMatches",
